@@ -1701,3 +1701,31 @@ E('C15', 'signature-elif-chain', BLK, '''            if expected is None:
                 return f"{name}: is a group, expected was a single input"
             if expected is None:
                 pass''')
+
+# ---- C16 R16.4d statelessness between deliveries (seed C16-2)
+V('C16', 'setdefault-merges-into-captured-defaults', FIL, '''        self._editlist.append(lambda data: {**kwargs, **data})
+''', '''        def _edit(data: MutableMapping) -> MutableMapping:
+            kwargs.update(data)
+            return kwargs
+        self._editlist.append(_edit)
+''', 'R16.4d')
+V('C16', 'add-returns-captured-dict', FIL, '''        self._editlist.append(lambda data: {**data, **kwargs})
+''', '''        def _edit(data: MutableMapping) -> MutableMapping:
+            for key in list(data):
+                kwargs.setdefault(key, data[key])
+            return kwargs
+        self._editlist.append(_edit)
+''', 'R16.4d')
+E('C16', 'setdefault-copy-then-update', FIL, '''        self._editlist.append(lambda data: {**kwargs, **data})
+''', '''        def _edit(data: MutableMapping) -> MutableMapping:
+            new = dict(kwargs)
+            new.update(data)
+            return new
+        self._editlist.append(_edit)
+''')
+E('C16', 'add-update-in-place', FIL, '''        self._editlist.append(lambda data: {**data, **kwargs})
+''', '''        def _edit(data: MutableMapping) -> MutableMapping:
+            data.update(kwargs)
+            return data
+        self._editlist.append(_edit)
+''')
